@@ -36,7 +36,9 @@ WIDE_CONSTS = (2 ** 53, 2 ** 53 + 1, 10 ** 30, 10 ** 30 + 1, 1700000000000000000
 ARITH = ("+", "-", "*", "//", "%")          # '**' is generated separately: exponent is a small constant
 COMMUTATIVE = ("+", "*")
 CMPS = ("<", "<=", ">", ">=", "==", "!=")
-CHAIN_CMPS = (("<", "<"), ("<", "=="), ("==", "<"), ("==", "=="))
+CHAIN_CMPS = (("<", "<"), ("<", "=="), ("==", "<"), ("==", "=="),
+              # chains whose FIRST link is > / >= (a link-by-link mirroring must move the shared middle operand), mixed directions
+              (">", "<"), (">", ">"), (">=", "<"), ("<", ">"), (">", "=="), ("!=", "<"), ("<=", "<="), (">=", ">="))
 POW_EXPONENTS = (0, 1, 2, 3)
 OPNAME = {"+": "Add", "-": "Sub", "*": "Mult", "//": "FloorDiv", "%": "Mod", "**": "Pow"}
 
